@@ -622,13 +622,14 @@ def replay(ctx, rep):
     if isinstance(rep.get('case'), dict) and 'script' in rep['case']:
         import tunnel_gen as tg
         c2 = type(ctx)(ctx.prop_id, 'quick', 0)
-        for maxchan in (1, 2):
-            tg.reap_after_reuse(c2, c2.rng, 'C06', maxchan)
-        tg.closed_app_streaming_dst(c2, c2.rng, 'C06')
-        for which in ('dst', 'app'):
-            tg.reader_closed_keeps_sending(c2, c2.rng, 'C06', which)
-        for chunks in (2, 4):
-            tg.abort_then_new_flow(c2, c2.rng, 'C06', chunks)
+        with tg.pinned(rep['case'].get('cfg')):
+            for maxchan in (1, 2):
+                tg.reap_after_reuse(c2, c2.rng, 'C06', maxchan)
+            tg.closed_app_streaming_dst(c2, c2.rng, 'C06')
+            for which in ('dst', 'app'):
+                tg.reader_closed_keeps_sending(c2, c2.rng, 'C06', which)
+            for chunks in (2, 4):
+                tg.abort_then_new_flow(c2, c2.rng, 'C06', chunks)
         hit = [v for v in c2.violations if v['key'] == rep.get('key')]
         return bool(hit), (str(hit[0]['observed']) if hit else 'the new flow keeps its identifier and its bytes')
     import sshuttle.ssnet as ssnet
